@@ -162,6 +162,11 @@ class Dimap(Generic[ArgTuple, R, S], GenerativeFunction[S]):
             primals,
             tangents,
         )
+        # Leaves which are literals in `argument_mapping` come back untagged:
+        # they cannot have changed.
+        inner_argdiffs = Diff.tree_diff(
+            Diff.tree_primal(inner_argdiffs), Diff.tree_tangent(inner_argdiffs)
+        )
         inner_trace: Trace[R] = trace.inner
 
         tr, w, inner_retdiff, bwd_request = self.inner.edit(
@@ -182,6 +187,9 @@ class Dimap(Generic[ArgTuple, R, S], GenerativeFunction[S]):
             None,
             (primals, inner_retval_primals),
             (tangents, inner_retval_tangents),
+        )
+        retval_diff = Diff.tree_diff(
+            Diff.tree_primal(retval_diff), Diff.tree_tangent(retval_diff)
         )
 
         retval_primal: S = Diff.tree_primal(retval_diff)
